@@ -1899,16 +1899,19 @@ class PyCdlib:
             # more data than the part that makes up the boot file.
             block = data_fp.read(min(self.logical_block_size,
                                      data_len - curr_sector * self.logical_block_size))
+            if not block:
+                # We ran off the end of the input.  The missing data counts as
+                # zeros, which do not change the checksum, so we are done.
+                break
             block = block.ljust(2048, b'\x00')
             i = 0
             if curr_sector == 0:
                 # The first 64 bytes are not included in the checksum.
                 i = 64
-            while i < len(block):
-                tmp, = struct.unpack_from('<L', block[:i + 4], i)
-                csum += tmp
-                csum = csum & 0xffffffff
-                i += 4
+            # Sum up all of the 32-bit little-endian words in one go.
+            num_words = utils.ceiling_div(len(block) - i, 4)
+            csum += sum(struct.unpack_from('<%dL' % (num_words), block, i))
+            csum = csum & 0xffffffff
 
             curr_sector += 1
 
